@@ -428,10 +428,19 @@ impl Runner {
     }
 
     fn fail(&mut self, what: String) {
+        self.fail_as(what, "");
+    }
+
+    fn fail_as(&mut self, what: String, finding: &str) {
         let c = self.case;
         let r = self.ops.clone();
-        self.s.stats.count("oracle.failure");
-        self.s.stats.oracle_failure(c, &what, "", r);
+        self.s.stats.count(if finding.is_empty() { "oracle.failure" } else { "oracle.known_finding" });
+        self.s.stats.oracle_failure(c, &what, finding, r);
+    }
+
+    /// F02a: `proxy` was registered with two equal node addresses (add_proxy accepts that)
+    fn has_dup_node_addresses(&self, proxy: &str) -> bool {
+        self.store.all_proxies.get(proxy).map(|p| p.node_addresses[0] == p.node_addresses[1]).unwrap_or(false)
     }
 
     fn new_case(&mut self) {
@@ -873,7 +882,13 @@ impl Runner {
         };
         self.s.stats.count("oracle.checked");
         if let Some(w) = what {
-            self.fail(format!("C02: {} [level {}, trace {}]", w, level, hops.iter().map(render_hop).collect::<Vec<_>>().join(";")));
+            // F02a: the run ends with `slot not covered` at a proxy registered with two equal node addresses
+            let finding = match hops.last() {
+                Some(Hop::Err(p, e)) if e == "slot-not-covered" && self.has_dup_node_addresses(p) => "F02a",
+                _ => "",
+            };
+            let msg = format!("C02: {} [level {}, trace {}]", w, level, hops.iter().map(render_hop).collect::<Vec<_>>().join(";"));
+            self.fail_as(msg, finding);
         }
     }
 
@@ -1086,12 +1101,14 @@ async fn probe(r: &mut Runner, rng: &mut Rng, starts: &[String], slots: &[usize]
 
 async fn gen_case(r: &mut Runner, rng: &mut Rng, thorough: bool, idx: u64) {
     r.new_case();
+    let shape = if idx % 12 == 7 { 9 } else { rng.below(9) };
     let n = 4 + 2 * rng.below(3); // 4, 6 or 8 proxies
     for j in 1..=n {
-        r.do_b(&["add_proxy", &proxy_addr(j), &format!("{}:7001", proxy_host(j)), &format!("{}:7002", proxy_host(j)), "-"]);
+        // shape 9 (known finding F02a): every proxy is registered with two equal node addresses
+        let second = if shape == 9 { "7001" } else { "7002" };
+        r.do_b(&["add_proxy", &proxy_addr(j), &format!("{}:7001", proxy_host(j)), &format!("{}:{}", proxy_host(j), second), "-"]);
     }
     r.do_b(&["add_cluster", "c1", "4", "-"]);
-    let shape = rng.below(9);
     r.limit = if shape == 6 { 1 } else { 0 };
     r.s.stats.count(&format!("gen.shape.{}", match shape {
         0 => "stable4",
@@ -1101,7 +1118,8 @@ async fn gen_case(r: &mut Runner, rng: &mut Rng, thorough: bool, idx: u64) {
         5 => "failover_mid_migration",
         6 => "migrating_limit1",
         7 => "scale_down_migrating",
-        _ => "forced_path_blocking_timeout",
+        8 => "forced_path_blocking_timeout",
+        _ => "dup_node_address_failover_F02a",
     }));
     match shape {
         0 => {}
@@ -1120,7 +1138,7 @@ async fn gen_case(r: &mut Runner, rng: &mut Rng, thorough: bool, idx: u64) {
                 r.do_b(&["scale_down", "c1", "4"]);
             }
         }
-        4 => {
+        4 | 9 => {
             let ps = cluster_proxies(&r.store);
             let a = rng.pick(&ps).clone();
             r.do_b(&["failover", &a, "-"]);
@@ -1273,9 +1291,16 @@ impl Remap {
 async fn replay(r: &mut Runner, lines: &[String]) {
     r.new_case();
     let mut remap = Remap::default();
-    for l in lines.iter() {
+    // consecutive `follow` lines are one batch (as generated): the clients run concurrently, so the
+    // queued ones cost one grace period in total and the wall-clock limits of a phase are respected
+    let mut batch: Vec<(String, usize)> = vec![];
+    for l in lines.iter().chain(std::iter::once(&"end".to_string())) {
         if l.starts_with('#') {
             continue;
+        }
+        if !l.starts_with("follow ") && !batch.is_empty() {
+            let b: Vec<(String, usize)> = batch.drain(..).collect();
+            r.do_follow_batch(&b).await;
         }
         let raw: Vec<&str> = l.split(' ').collect();
         let has_choice = matches!(raw.as_slice(), ["b", "add_cluster", ..] | ["b", "add_nodes", ..] | ["b", "failover", ..]);
@@ -1309,7 +1334,7 @@ async fn replay(r: &mut Runner, lines: &[String]) {
             ["follow", st, sl, _] => {
                 if let Ok(s) = sl.parse::<usize>() {
                     if s < SLOT_NUM {
-                        r.do_follow_batch(&[(st.to_string(), s)]).await;
+                        batch.push((st.to_string(), s));
                     }
                 }
             }
